@@ -127,6 +127,9 @@ func c05NT(c fsCase) (bool, []string) {
 	if c.Refused > 75 {
 		cl = append(cl, "long_outage")
 	}
+	if c.OutageMs >= 9000 {
+		cl = append(cl, "outage_longer_than_9s")
+	}
 	if c.WithErrors {
 		cl = append(cl, "with_errors")
 	}
@@ -136,13 +139,13 @@ func c05NT(c fsCase) (bool, []string) {
 	return nt, cl
 }
 
-const c05Rule = "outage scripts: fault (kind x direction x frame x position) -> k in 0..90 refused redials (TCP reset, or an HTTP 503 / plain 200 answer instead of the protocol switch) -> server reachable again -> optional second fault on the new connection; backoff min 1-20 ms / max 5-100 ms; {reconnect, no-reconnect} x {retry-tagged (with and without a context parameter), untagged} x {error mapping on, off}; plus direct generation of (min, max, attempt) for the backoff function over [1us,1h] x [0,10^6]. Non-trivial = at least one failed redial before heal, or a second fault, or an outage longer than 75 attempts; distinct by descriptor hash"
+const c05Rule = "outage scripts: fault (kind x direction x frame x position) -> k in 0..90 refused redials (TCP reset, or an HTTP 503 / plain 200 answer instead of the protocol switch) -> server reachable again -> optional second fault on the new connection; backoff min 1-20 ms / max 5-100 ms; {reconnect, no-reconnect} x {retry-tagged (with and without a context parameter), untagged} x {error mapping on, off}; plus direct generation of (min, max, attempt) for the backoff function over [1us,1h] x [0,10^6]. one outage held for 9.5 s (26 s thorough) so that retry-tagged calls sleep through ten and more of their own back-off steps. Non-trivial = at least one failed redial before heal, or a second fault, or an outage longer than 75 attempts; distinct by descriptor hash"
 
 func TestC05(t *testing.T) {
 	rec := NewRec("C05", c05Rule)
 	defer rec.Finish(t)
 	rec.EnableJournal()
-	rec.RequireClass("refused_by_http503", "refused_redials", "long_outage", "double_fault", "no_reconnect", "with_errors", "has_retry", "backoff_pure")
+	rec.RequireClass("outage_longer_than_9s", "refused_by_http503", "refused_redials", "long_outage", "double_fault", "no_reconnect", "with_errors", "has_retry", "backoff_pure")
 
 	run := func(ft failer, c fsCase) {
 		nt, cl := c05NT(c)
@@ -244,6 +247,16 @@ func TestC05(t *testing.T) {
 			run(t, fsCase{Calls: base, Fault: &Fault{Dir: "c2s", Frame: 0, Pos: "after", Kind: "fin"}, NoReconnect: true})
 			run(t, fsCase{Calls: base, Fault: &Fault{Dir: "s2c", Frame: 1, Pos: "mid", Kind: "rst"}, NoReconnect: true, WithErrors: true})
 			run(t, fsCase{Calls: base, Fault: &Fault{Dir: "s2c", Frame: 1, Pos: "before", Kind: "blackhole"}, Refused: 2, BackoffMinMs: 2, BackoffMaxMs: 8})
+			// an outage that is long in time rather than in attempts: retry-tagged calls in flight at the loss and issued in the
+			// window have slept through ten and more of their own back-off steps (100 ms x 1.5^n) when the server is back
+			longMs := []int{9500}
+			if thorough() {
+				longMs = []int{9500, 26000}
+			}
+			for _, ms := range longMs {
+				run(t, fsCase{Calls: []fsCall{{Kind: "retry", Plan: Plan{Gate: true}, When: "pre"}, {Kind: "call", Plan: Plan{Gate: true}, When: "pre"}, {Kind: "retry", When: "window"}, {Kind: "retry", Plan: Plan{NoCtx: true}, When: "window"}, {Kind: "call", When: "healed"}},
+					Fault: &Fault{Dir: "s2c", Frame: 0, Pos: "after", Kind: "rst"}, Refused: 3, OutageMs: ms, BackoffMinMs: 20, BackoffMaxMs: 250, WithErrors: true})
+			}
 			// redials that reach an HTTP endpoint which is not (yet) the service
 			for _, how := range []string{"http503", "http200"} {
 				for _, r := range []int{1, 4} {
